@@ -360,6 +360,10 @@ func (b *iblaster) tr1(t *Term) *Term {
 		wa := t.Args[0].S.W
 		op := map[string]string{"bvslt": "<", "bvsle": "<=", "bvsgt": ">", "bvsge": ">="}[t.Op]
 		return IntCmp(op, signedOf(as[0], wa), signedOf(as[1], wa))
+	case "bv2nat":
+		return b.tr(t.Args[0])
+	case "to_real", "to_int":
+		return mk(t.Op, t.S, b.args(t)...)
 	case "+", "-", "*", "/", "div", "mod":
 		return mk(t.Op, t.S, b.args(t)...)
 	case "<", "<=", ">", ">=":
